@@ -6,5 +6,9 @@ func corpusDocs() []Doc {
 		// KF15-1: two anchors on one page; their order in CreateAnchors follows map iteration
 		{Seed: 0, Feats: []string{"ids"}, HTML: `<p id="a">x</p><p id="b">y</p>`},
 		{Seed: 0, Feats: []string{"ids"}, HTML: `<style>@page{size:200px 100px}</style><p id="a">x</p><p id="b">y</p><p id="c" style="break-before:page">z</p><p id="d">z</p><p id="e">z</p><a href="#b">l</a>`},
+		// KF15-2: two floats broken across the same page break are re-inserted on the next page in map order
+		{Seed: 0, Feats: []string{"float"}, HTML: `<style>@page{size:270px 270px}</style><div style="float:left;width:100px;color:red">a<br>b<br>c<br>d<br>e<br>f<br>g<br>h</div><div style="float:right;width:100px;color:blue">A<br>B<br>C<br>D<br>E<br>F<br>G<br>H</div>`},
+		// KF15-3: grid track sizing uses the map-iteration index of a spanning item
+		{Seed: 0, Feats: []string{"grid"}, HTML: `<style>@page{size:350px 441px;margin:7px}</style><div style="display:grid;grid-template-columns:1fr 1fr 1fr"><div>a</div><div style="grid-column:1 / 3;grid-row:span 2">consequently typographical</div><div>b</div><div>c</div></div>`},
 	}
 }
